@@ -36,7 +36,7 @@ def execute(mod, ctx, case):
         mod.run(case, ctx, res)
     except Exception:  # harness bug or unexpected library behaviour outside any oracle
         res.stats["harness_errors"] += 1
-        res.notes.append(traceback.format_exc(limit=8))
+        res.notes.append(traceback.format_exc(limit=-8))
     finally:
         ctx.sb.reset(ctx.dir)
         ctx.dir = None
